@@ -37,14 +37,19 @@ theorem pyReprListWith_err (r : String → String) : ∀ (l : List PyVal) (err :
       · simp [pure, Except.pure] at h
 end
 
-theorem pyStr_err (v : PyVal) (err : Err) (h : PyVal.pyStr v = .error err) : err = .valueError "digits" := by
+theorem pyStrWith_err (r : String → String) (v : PyVal) (err : Err)
+    (h : PyVal.pyStrWith r v = .error err) : err = .valueError "digits" := by
   cases v with
-  | str s => simp [PyVal.pyStr, pure, Except.pure] at h
+  | str s => simp [PyVal.pyStrWith, pure, Except.pure] at h
   | none => exact pyReprWith_err _ _ _ h
   | bool b => exact pyReprWith_err _ _ _ h
   | int i => exact pyReprWith_err _ _ _ h
   | float d nz => exact pyReprWith_err _ _ _ h
   | tuple l => exact pyReprWith_err _ _ _ h
+
+theorem pyStr_err (pr : Nat → Bool) (v : PyVal) (err : Err) (h : PyVal.pyStr pr v = .error err) :
+    err = .valueError "digits" :=
+  pyStrWith_err _ v err h
 
 /-- values whose `str()` cannot fail: everything except an int beyond the digit limit (and
     tuples, which may contain one) -/
@@ -56,7 +61,7 @@ def keyable : PyVal → Bool
   | .int i => decide (PyVal.natDigits i.natAbs ≤ PyVal.maxStrDigits)
   | .tuple _ => false
 
-theorem pyStr_ok_of_keyable (v : PyVal) (h : keyable v = true) : ∃ s, PyVal.pyStr v = .ok s := by
+theorem pyStr_ok_of_keyable (pr : Nat → Bool) (v : PyVal) (h : keyable v = true) : ∃ s, PyVal.pyStr pr v = .ok s := by
   cases v with
   | none => exact ⟨_, rfl⟩
   | bool b => exact ⟨_, rfl⟩
@@ -66,12 +71,12 @@ theorem pyStr_ok_of_keyable (v : PyVal) (h : keyable v = true) : ∃ s, PyVal.py
       simp only [keyable, decide_eq_true_eq] at h
       have : ¬ PyVal.natDigits i.natAbs > PyVal.maxStrDigits := by omega
       refine ⟨toString i, ?_⟩
-      simp [PyVal.pyStr, PyVal.pyRepr, PyVal.pyReprWith, this, pure, Except.pure]
+      simp [PyVal.pyStr, PyVal.pyStrWith, PyVal.pyReprWith, this, pure, Except.pure]
   | tuple l => simp [keyable] at h
 
-theorem pyStr_int_too_long (i : Int) (h : PyVal.natDigits i.natAbs > PyVal.maxStrDigits) :
-    PyVal.pyStr (.int i) = .error (.valueError "digits") := by
-  simp [PyVal.pyStr, PyVal.pyRepr, PyVal.pyReprWith, h, throw, throwThe, MonadExceptOf.throw]
+theorem pyStr_int_too_long (pr : Nat → Bool) (i : Int) (h : PyVal.natDigits i.natAbs > PyVal.maxStrDigits) :
+    PyVal.pyStr pr (.int i) = .error (.valueError "digits") := by
+  simp [PyVal.pyStr, PyVal.pyStrWith, PyVal.pyReprWith, h, throw, throwThe, MonadExceptOf.throw]
 
 /-! ### `mapM` over `Except` -/
 
@@ -106,41 +111,41 @@ theorem mapM_err_split {α β : Type} (f : α → Except Err β) (err : Err) :
 /-! ### the key -/
 
 /-- one component of the key -/
-def keyPart (env : Env) (n : String) : Except Err String :=
+def keyPart (pr : Nat → Bool) (env : Env) (n : String) : Except Err String :=
   match env.get n with
-  | some v => PyVal.pyStr v
+  | some v => PyVal.pyStr pr v
   | none => throw .nameError
 
-theorem keyOf_eq (salt : String) (names : List String) (env : Env) :
-    keyOf salt names env = (do let vals ← names.mapM (keyPart env); pure (salt ++ String.join vals)) := rfl
+theorem keyOf_eq (pr : Nat → Bool) (salt : String) (names : List String) (env : Env) :
+    keyOf pr salt names env = (do let vals ← names.mapM (keyPart pr env); pure (salt ++ String.join vals)) := rfl
 
-theorem keyOf_ok (salt : String) (names : List String) (env : Env)
+theorem keyOf_ok (pr : Nat → Bool) (salt : String) (names : List String) (env : Env)
     (h : ∀ n ∈ names, ∃ v, env.get n = some v ∧ keyable v = true) :
-    ∃ key, keyOf salt names env = .ok key := by
+    ∃ key, keyOf pr salt names env = .ok key := by
   rw [keyOf_eq]
-  obtain ⟨vals, hv⟩ := mapM_ok_of_forall (keyPart env) names (by
+  obtain ⟨vals, hv⟩ := mapM_ok_of_forall (keyPart pr env) names (by
     intro n hn
     obtain ⟨v, hv, hk⟩ := h n hn
-    obtain ⟨s, hs⟩ := pyStr_ok_of_keyable v hk
+    obtain ⟨s, hs⟩ := pyStr_ok_of_keyable pr v hk
     exact ⟨s, by simp [keyPart, hv, hs]⟩)
   exact ⟨salt ++ String.join vals, by simp [hv, bind, Except.bind, pure, Except.pure]⟩
 
-theorem keyOf_digits (salt : String) (pre post : List String) (n : String) (i : Int) (env : Env)
+theorem keyOf_digits (pr : Nat → Bool) (salt : String) (pre post : List String) (n : String) (i : Int) (env : Env)
     (hpre : ∀ m ∈ pre, ∃ v, env.get m = some v ∧ keyable v = true)
     (hn : env.get n = some (.int i)) (hi : PyVal.natDigits i.natAbs > PyVal.maxStrDigits) :
-    keyOf salt (pre ++ n :: post) env = .error (.valueError "digits") := by
+    keyOf pr salt (pre ++ n :: post) env = .error (.valueError "digits") := by
   rw [keyOf_eq]
-  have := mapM_err_split (keyPart env) (.valueError "digits") pre n post (by
+  have := mapM_err_split (keyPart pr env) (.valueError "digits") pre n post (by
     intro m hm
     obtain ⟨v, hv, hk⟩ := hpre m hm
-    obtain ⟨s, hs⟩ := pyStr_ok_of_keyable v hk
-    exact ⟨s, by simp [keyPart, hv, hs]⟩) (by simp [keyPart, hn, pyStr_int_too_long i hi])
+    obtain ⟨s, hs⟩ := pyStr_ok_of_keyable pr v hk
+    exact ⟨s, by simp [keyPart, hv, hs]⟩) (by simp [keyPart, hn, pyStr_int_too_long pr i hi])
   simp [this, bind, Except.bind]
 
 /-- the key construction raises only: NameError for a name that is not bound, or the
     digit-limit error of `str(int)` -/
-theorem keyOf_err (salt : String) (names : List String) (env : Env) (err : Err)
-    (h : keyOf salt names env = .error err) :
+theorem keyOf_err (pr : Nat → Bool) (salt : String) (names : List String) (env : Env) (err : Err)
+    (h : keyOf pr salt names env = .error err) :
     (err = .nameError ∧ ∃ n ∈ names, env.get n = none) ∨ err = .valueError "digits" := by
   rw [keyOf_eq] at h
   simp only [bind_err_iff] at h
@@ -153,7 +158,7 @@ theorem keyOf_err (salt : String) (names : List String) (env : Env) (err : Err)
         exact Or.inl ⟨hf.symm, n, hn, hg⟩
     | some v =>
         simp only [hg] at hf
-        exact Or.inr (pyStr_err v err hf)
+        exact Or.inr (pyStr_err pr v err hf)
   · simp [pure, Except.pure] at h
 
 end Pyab.Proofs.Run
